@@ -97,4 +97,28 @@ def decorMissLate (keyTpl : Tpl) (tagTpls : List Tpl) (val : Nat → List Char)
   let afterCall := body val
   { key := key, tags := tagTpls.map (render afterCall) }
 
+/-! ### a re-write by a decorator (`early`, `soft`, `hit`: `cashews/decorators/cache/{early,soft,hit}.py`)
+
+The strategies that write a key again while it is alive render key and tags like the simple decorator, at the top of
+`_wrap`, from the arguments of the call that triggers the re-write, and hand exactly these to the function that stores
+the result (`early`: `args_to_call = [backend, func, args, kwargs, _cache_key, _ttl, _early_ttl, condition, _tags]`, passed
+to `_get_result_for_early(..., unlock=True)`; `hit`: `call_args = (func, args, kwargs, backend, _cache_key, ttl, condition,
+_tags)` passed to `_get_and_save`; `soft`: `_tags`, `_cache_key` are locals of `_wrap`). -/
+
+/-- the re-write of a live entry: filed under the key and the tags of the call that triggered it -/
+def decorRefresh (keyTpl : Tpl) (tagTpls : List Tpl) (val : Nat → List Char)
+    (body : (Nat → List Char) → (Nat → List Char)) : Filed :=
+  let tags := tagTpls.map (render val)
+  let key := render val keyTpl
+  let _afterCall := body val
+  { key := key, tags := tags }
+
+/-- the variant that stores the recalculated result without tags, because "the key is already a member of its tag
+sets" - kept only to show, in `Props/C12.lean`, that it breaks the property -/
+def decorRefreshUntagged (keyTpl : Tpl) (_tagTpls : List Tpl) (val : Nat → List Char)
+    (body : (Nat → List Char) → (Nat → List Char)) : Filed :=
+  let key := render val keyTpl
+  let _afterCall := body val
+  { key := key, tags := [] }
+
 end CashewsVerif.TagTpl
